@@ -35,7 +35,7 @@ ELIGIBLE = {
     "read_fac": ("default:fac",),
     "read_p": ("getter:p",), "set_p": ("setter:p",), "read_cp": ("getter:cp",),
     "items": ("validator:items",), "d": ("validator:d",), "s": ("validator:s",),
-    "tl": ("validator:tl",), "set_sup": ("factory:1", "factory:2"),
+    "tl": ("validator:tl",), "set_sup": ("factory:1", "factory:2", "factory:3"),
     "set_dv": ("validator:v",), "set_child": (), "unreg": (), "probe": (),
     "del_items": (), "set_items": ("validator:items",),
     "set_sv": ("validator:sv",),
@@ -112,7 +112,10 @@ class World:
         class IMid(T.Interface):
             pass
 
-        class Src(T.HasTraits):
+        class SrcBase(T.HasTraits):
+            pass
+
+        class Src(SrcBase):
             tag = T.Int()
 
         @T.provides(IMid)
@@ -130,11 +133,16 @@ class World:
         def factory2(adaptee):
             env.point("factory:2")
             return FooAdapter(adaptee=adaptee)
+        def factory3(adaptee):
+            # a second, less specific offer (made for the base class of Src)
+            env.point("factory:3")
+            return FooAdapter(adaptee=adaptee)
         self._saved_am = am_mod.adaptation_manager
         am = AdaptationManager()
         am_mod.set_global_adaptation_manager(am)
         am.register_factory(factory1, Src, IMid)
         am.register_factory(factory2, IMid, IFoo)
+        am.register_factory(factory3, SrcBase, IFoo)
         self.Src = Src
 
         def fac():
